@@ -66,11 +66,12 @@ def coq_runcase(I, case, script):
     opts = case.get("options", {})
     react = case.get("react") or []
     return ("{| rc_prog := %s; rc_vals := %s; rc_imm := %s; rc_script := %s; rc_react := %s; "
-            "rc_mutate := %d; rc_test_ids := %s |}"
+            "rc_react_all := %s; rc_mutate := %d; rc_test_ids := %s |}"
             % (coq_program(I, case["prog"]), coq_list([coq_value(I, v) for v in vals]),
                coq_list([coq_bool(b) for b in case["imm"]]),
                coq_list([coq_apicall(o) for o in script]),
                coq_list(["None" if r is None else "(Some %d)" % r for r in react]),
+               coq_bool(bool(case.get("react_all"))),
                MUTATE_MODES[opts.get("mutate", False)], coq_bool(opts.get("test_ids", True))))
 
 
